@@ -1,6 +1,6 @@
 (* C14 property theorems. Nothing but statements closed by `exact lemma` and Print Assumptions. *)
 From Coq Require Import ZArith List Bool.
-From OG Require Import C14.Model C14.Proofs.
+From OG Require Import C14.Model C14.Proofs C14.Inv.
 Import ListNotations.
 Open Scope Z_scope.
 
@@ -58,6 +58,37 @@ Theorem C14_eventual_removal_node : forall w now s d,
   forall x, In x (node (fst (tick w now))) -> n_id x <> n_id s.
 Proof. exact tick_eventual. Qed.
 Print Assumptions C14_eventual_removal_node.
+
+(* The closed form. `Inv` (C14/Inv.v) is the catalogue/node consistency invariant (every shard of the node is listed
+   in the catalogue and has a policy; shard ids ascending inside a group, id ranges of groups disjoint; unmarked
+   catalogue entries for the node's shards; node ids unique). It holds initially, is preserved by every event whose
+   created groups take fresh larger ids (as the id counters guarantee), and under it EVERY deletion in EVERY trace is
+   justified by the policy duration in force in the catalogue at the deciding step: limited, and end + d < now. *)
+Theorem C14_inv_init : forall ps, Inv {| policies := ps; groups := []; node := [] |}.
+Proof. exact Inv_init. Qed.
+Theorem C14_inv_preserved : forall es w, Inv w -> wf_trace w es -> Inv (fst (run w es)).
+Proof. exact Inv_run. Qed.
+Print Assumptions C14_inv_preserved.
+
+Theorem C14_safety_closed : forall es w0 r,
+  Inv w0 -> wf_trace w0 es -> In r (snd (run w0 es)) ->
+  exists d, del_dur r = Some d /\ d <> 0 /\ n_end (del_shard r) + d < del_now r.
+Proof. exact safety_closed. Qed.
+Print Assumptions C14_safety_closed.
+
+(* progress on the catalogue: one run of the service removes from the catalogue every expired group of a limited
+   policy whose live shards are all on this node (single-owner view), because all of them are deleted, marked,
+   and the group - now marked deleted with every shard marked - is pruned *)
+Theorem C14_eventual_removal_catalogue : forall w now g d,
+  Inv w -> In g (groups w) ->
+  (forall g2, In g2 (groups w) -> g_id g2 = g_id g -> g2 = g) ->
+  policy_dur (policies w) (g_rp g) = Some d -> d <> 0 -> g_end g + d < now ->
+  (forall x, In x (g_shards g) -> gs_markdel x = false ->
+     exists s, In s (node w) /\ n_id s = gs_id x /\ n_gid s = g_id g /\ n_rp s = g_rp g /\ n_end s = g_end g) ->
+  (exists x, In x (g_shards g) /\ gs_markdel x = false) ->
+  forall g', In g' (groups (fst (tick w now))) -> g_id g' <> g_id g.
+Proof. exact tick_prunes_group. Qed.
+Print Assumptions C14_eventual_removal_catalogue.
 
 (* boundary instants *)
 Theorem C14_boundary_at : forall d e, expired d e (e + d) = false.
